@@ -3,6 +3,7 @@ path of the mutex argument.  Calls to functions defined in the module are lock-n
 listed in `summaries` ({callee: (acquired set, released set)})."""
 from . import ir, pat
 
+SIGBLOCKED = "<signals-blocked>"
 LOCK_FNS = {"pthread_mutex_lock": "+", "pthread_mutex_unlock": "-"}
 
 
@@ -17,6 +18,13 @@ def transfer(i, cur, summaries):
     if i.op != "call":
         return cur
     c = i.callee
+    if c == "pthread_sigmask":
+        how = ir.const_of(i.fn, i.args[0])
+        if how == 0 and ir.const_of(i.fn, i.args[1]) != 0:      # SIG_BLOCK with a set
+            return cur | {SIGBLOCKED}
+        if how == 2:                                            # SIG_SETMASK: restores the saved mask
+            return cur - {SIGBLOCKED}
+        return cur
     if c in LOCK_FNS:
         n = lock_name(i)
         if LOCK_FNS[c] == "+":
